@@ -128,9 +128,7 @@ def run(ctx):
         def slice_of(t):
             t = strip_refs(t)
             if is_index_call(t) and strip_refs(call_args(t)[0]) == ("param", 1):
-                rg = agg_variant(call_args(t)[1])
-                if rg and rg[1] == "Range":
-                    return rg[2]
+                return canon_range(call_args(t)[0], call_args(t)[1])      # [a..], [a..len], [..b], [0..b] alike
             return None
         oks = [p for p in rets if unwrap_ok(p.end[1]) is not None]
         for p in oks:
@@ -144,7 +142,7 @@ def run(ctx):
             if ok:
                 for e, (lo_w, hi_w, opi) in zip(dm, want):
                     sl = slice_of(e.args[1])
-                    ok = ok and sl is not None and rec(*lo_w)(sl[0]) and (rec(*hi_w)(sl[1]) if hi_w != "len" else (is_call(sl[1], "str>::len") and strip_refs(call_args(sl[1])[0]) == ("param", 1))) \
+                    ok = ok and sl is not None and rec(*lo_w)(sl[0]) and (rec(*hi_w)(sl[1]) if hi_w != "len" else sl[1] == LEN) \
                         and rec(opi, 2)(e.args[0])
             v = unwrap_ok(p.end[1])
             a = agg_variant(v)
